@@ -96,6 +96,8 @@ class Static:
                 if st:
                     for r in st.get('internal') or []:
                         out.add(r['ev'])
+                    for e in st.get('deferred') or []:
+                        out.add(e)
             for r in m.get('internal') or []:
                 out.add(r['ev'])
         idx = []
